@@ -80,6 +80,11 @@ class FrozenAttributes(Dict[str, Union[int, bool]]):
     def update(self, *args: Any, **kwds: Any) -> None:
         raise Exception("Cannot change value.")
 
+    def _immutable(self, *args: Any, **kwds: Any) -> Any:
+        raise Exception("Cannot change value.")
+
+    __delitem__ = __ior__ = pop = popitem = clear = setdefault = _immutable
+
     def extend(self, dictlike: Mapping[str, Union[int, bool]]) -> "FrozenAttributes":
         return FrozenAttributes(chain(self.items(), dictlike.items()))
 
